@@ -144,7 +144,7 @@ func (f *Frame) call(v ssa.Value, c *ssa.CallCommon, in ssa.Instruction) {
 	}
 	// the func value is a case distinction (memory layers, branches) over known top-level
 	// functions: dispatch - each alternative under its condition, the rest as an unknown call
-	if ids := constLeaves(fv[0], 4); len(ids) > 0 && !f.spec {
+	if ids := constLeaves(fv[0], 8); len(ids) > 0 && !f.spec {
 		ok := true
 		for _, id := range ids {
 			if fn := f.u.W.funcByID[id]; fn == nil || len(fn.FreeVars) != 0 {
